@@ -581,6 +581,27 @@ func (P *Prog) onlyFromCallbackResults(v ssa.Value, depth int) bool {
 		if ci.static != nil && isPkgFunc(ci.static, "reflect") && reflectAlias[ci.static.Name()] && len(x.Call.Args) > 0 {
 			return P.onlyFromCallbackResults(x.Call.Args[0], depth)
 		}
+		// a module helper that hands the callback's result on (`out, ok := s.apply(in, ctx)`)
+		if ci.static != nil && ci.static.Blocks != nil && inModule(funcPkgPath(ci.static)) {
+			idx := 0
+			if ex, isEx := cvi(v).(*ssa.Extract); isEx {
+				idx = ex.Index
+			}
+			n, all := 0, true
+			eachInstr(ci.static, func(_ *ssa.BasicBlock, _ int, in ssa.Instruction) {
+				if rt, ok := in.(*ssa.Return); ok && idx < len(rt.Results) {
+					rvs, okRV := retVals(rt)
+					if !okRV {
+						return
+					}
+					n++
+					if !P.onlyFromCallbackResults(rvs[idx], depth+1) {
+						all = false
+					}
+				}
+			})
+			return n > 0 && all
+		}
 		return false
 	case *ssa.Phi:
 		for _, e := range x.Edges {
